@@ -48,6 +48,10 @@ FUNCS = {
     'conststr': lambda x: 'q',
     'tag': lambda x: 'n' if isnum(x) else 't',
     'isnum': lambda x: 1 if isnum(x) else 0,
+    # results of different types for different cells (an int for some, a float for others): the column must hold
+    # f(cell) for every cell whichever cell comes first
+    'int_or_float': lambda x: (0 if x < 0 else x * 0.5 + 0.25) if (isnum(x) and x == x) else x,
+    'float_or_int': lambda x: (x + 0.5 if x < 1 else 3) if (isnum(x) and x == x) else x,
 }
 
 
@@ -770,10 +774,11 @@ class C13:
             for fname in sorted(FUNCS):
                 for via in ('matmul', 'map_'):
                     for order in (orders if tier == 'thorough' else ['natural', 'perm']):
-                        n = rng.choice([0, 3, 4, 6])
-                        cells = self._cells(rng, kind, n, 'Add', False)
-                        add({'mode': 'map', 'kind': kind, 'cells': [pyobs.enc(v) for v in cells], 'f': fname, 'via': via,
-                             'order': self._order(rng, n, order)})
+                        for _rep in range(4 if '_or_' in fname else 1):
+                            n = rng.choice([0, 3, 4, 6]) if _rep == 0 else rng.choice([3, 4, 6])
+                            cells = self._cells(rng, kind, n, 'Add', False)
+                            add({'mode': 'map', 'kind': kind, 'cells': [pyobs.enc(v) for v in cells], 'f': fname, 'via': via,
+                                 'order': self._order(rng, n, order)})
         return cases
 
     # ---- shrinking / reporting --------------------------------------------
